@@ -1,8 +1,10 @@
 (** C17 - output depends only on the type graph (statements only). *)
 From Coq Require Import List NArith String Bool Permutation.
 From V Require Import Base.Strings Base.Result Model.Registry Model.Settings Model.Subst
-  Model.TypePath Model.Derives Model.Generate Model.Emit Model.Equal Model.Renumber
-  Proofs.GenProofs Proofs.SortDedup Proofs.ItemsCanonical Proofs.RenumberPerm Proofs.Equivariance.
+  Model.TypePath Model.Derives Model.Generate Model.Emit Model.Equal Model.Shape Model.Renumber
+  Model.Families Model.Inputs Model.ExamplesTG Model.ExamplesFam
+  Proofs.GenProofs Proofs.SortDedup Proofs.ItemsCanonical Proofs.RenumberPerm Proofs.Equivariance
+  Proofs.PermFamilies Proofs.Restriction Proofs.ExamplesC17.
 Import ListNotations.
 
 (** keep-first: the item at an occupied path is never replaced, whatever follows in the registry *)
@@ -96,21 +98,9 @@ Print Assumptions C17_emit_module_ext.
     entry ([unique_item_paths]) and settings without recursive derives; [teq], [teq'] are
     arbitrary (in particular [types_equal r] and [types_equal (renumber pi r)]).
 
-    Full statement (DESIGN.md C17_permutation_tokens), not proved here:
-      forall pi r s, renumbering (N.of_nat (length r)) pi -> coincidence_free r s ->
-        generate r s (types_equal r) = Ok m1 ->
-        generate (renumber pi r) s (types_equal (renumber pi r)) = Ok m2 ->
-        emit_module s m1 = emit_module s m2
-    where [coincidence_free] allows SEVERAL item-eligible entries per path provided their IRs
-    agree up to the ids inside [TParam] and the docs (skeleton-consistent families).
-    What is missing: (1) for a same-path family the kept item is the first entry's IR in the
-    respective order, so one needs "skeleton-consistent => type_ir_tokens of any two members are
-    equal" (docs must agree too, or docs off); with C17_item_tokens_equal this is a statement
-    about [rename_ir]-classes that still has to be lifted from single entries to families;
-    (2) recursive derives: [flatten] accumulates derive lists in registry order, so the two
-    runs give permuted derive lists per path; equality of [derives_tokens] then follows from
-    [derives_tokens_canonical] (Proofs/SortDedup.v) under key-functionality, plus equivariance
-    of [collect_type_ids] as a set - not done. *)
+    The full statement (several item-eligible entries per path, recursive derives) is
+    [C17_permutation_tokens] at the end of this file; it needs the consistency hypotheses this
+    version does without. *)
 Theorem C17_permutation_tokens_partial :
   forall pi r s, renumbering (N.of_nat (List.length r)) pi ->
     forall teq teq' m1 m2,
@@ -121,3 +111,189 @@ Theorem C17_permutation_tokens_partial :
       emit_module s m1 = emit_module s m2.
 Proof. exact permutation_tokens_partial. Qed.
 Print Assumptions C17_permutation_tokens_partial.
+
+(** ** same-path families and recursive derives (Proofs/PermFamilies.v) *)
+
+(** the item tokens are a function of the id-erased IR ([erase_ids], Model/Shape.v), the docs
+    recorded in the IR and the derive TOKENS: neither [tpi_id] nor [tpi_orig] is ever printed *)
+Theorem C17_tokens_from_skeleton :
+  forall s a b,
+    erase_ids a = erase_ids b -> ir_docs a = ir_docs b ->
+    derives_tokens (ti_derives a) = derives_tokens (ti_derives b) ->
+    type_ir_tokens s a = type_ir_tokens s b.
+Proof. exact type_ir_tokens_skel. Qed.
+Print Assumptions C17_tokens_from_skeleton.
+
+(** the reachability traversal of the recursive derives commutes with the renumbering EXACTLY
+    (same visiting order, visited list renamed), for every fuel, start id and visited list *)
+Theorem C17_collect_ids_equivariant :
+  forall pi r, renumbering (N.of_nat (List.length r)) pi ->
+    forall fuel id vis,
+      collect_ids fuel (renumber pi r) (pi id) (map pi vis) = rmap (map pi) (collect_ids fuel r id vis).
+Proof.
+  intros pi r Hpi. apply collect_ids_equivariant; [exact (proj1 Hpi)|apply resolve_renumber; exact Hpi].
+Qed.
+Print Assumptions C17_collect_ids_equivariant.
+
+Theorem C17_collect_type_ids_equivariant :
+  forall pi r, renumbering (N.of_nat (List.length r)) pi ->
+    forall id, collect_type_ids (renumber pi r) (pi id) = rmap (map pi) (collect_type_ids r id).
+Proof. exact collect_type_ids_renumber. Qed.
+Print Assumptions C17_collect_type_ids_equivariant.
+
+(** what a path receives from [flatten_recursive_derives], as a SET: the default derives, the
+    specific derives of its key, and the derives of every recursive rule whose root entry
+    reaches an entry with that key ([rec_in]); stated for the derive paths, the same holds for
+    the attributes *)
+Theorem C17_flatten_sets :
+  forall dr r flat, ids_consistent r = true -> flatten dr r = Ok flat ->
+    forall k x,
+      In x (d_derives (resolve_derives flat k)) <->
+      In x (d_derives (dr_default dr)) \/
+      In x (d_derives (sget (flat_of_specific (dr_specific dr)) k)) \/
+      rec_in d_derives r (dr_recursive dr) k x.
+Proof. intros dr r flat. apply (flatten_sem d_derives); reflexivity. Qed.
+Print Assumptions C17_flatten_sets.
+
+(** ... and that set is invariant under renumbering *)
+Theorem C17_recursive_derives_invariant :
+  forall pi r, renumbering (N.of_nat (List.length r)) pi ->
+    forall proj rec k x, rec_in proj (renumber pi r) rec k x <-> rec_in proj r rec k x.
+Proof. exact rec_in_renumber. Qed.
+Print Assumptions C17_recursive_derives_invariant.
+
+(** C17_permutation_tokens, FULL: permuting the entries of a registry with consistent
+    renumbering of all ids leaves the generated module token-identical.  [teq], [teq'] are
+    arbitrary (in particular [types_equal r] and [types_equal (renumber pi r)]); any number of
+    item-eligible entries per path; recursive derives allowed.  Hypotheses (Model/Shape.v,
+    Model/Families.v), all decidable and evaluated per case:
+    - [skeleton_consistent r s]: every item-eligible entry has the same id- and doc-erased IR
+      as the first entry with its path (the class of C01_fidelity);
+    - [docs_consistent r s]: with docs on, the members of a family carry the same doc strings
+      (type and per variant).  NOT implied by skeleton consistency ([erase_ids] forgets docs) and
+      NOT droppable: [C17_docs_hypothesis_needed] below.  Same Rust definition = same docs, so
+      registries derived from programs satisfy it;
+    - [derives_functional s]: over all derive paths (attributes) in the settings, equal sort keys
+      carry equal tokens - the hash-set identity of a derive is its token string, so this holds
+      for every settings value built by the real builders;
+    - both generations are [Ok].  NOT proved: "[Ok] iff [Ok]" (needs [types_equal] to be an
+      equivalence on every family, false on the pinned tree: F1/F3/F14).
+    The restriction half is [C17_restriction_tokens] below. *)
+Theorem C17_permutation_tokens :
+  forall pi r s, renumbering (N.of_nat (List.length r)) pi ->
+    forall teq teq' m1 m2,
+      skeleton_consistent r s -> docs_consistent r s -> derives_functional s ->
+      generate r s teq = Ok m1 ->
+      generate (renumber pi r) s teq' = Ok m2 ->
+      emit_module s m1 = emit_module s m2.
+Proof. exact permutation_tokens. Qed.
+Print Assumptions C17_permutation_tokens.
+
+(** the same with the hypotheses as the boolean checkers *)
+Theorem C17_permutation_tokens_checked :
+  forall pi r s teq teq' m1 m2,
+    renumbering (N.of_nat (List.length r)) pi ->
+    skeleton_consistentb r s = true -> docs_consistentb r s = true -> derives_functionalb s = true ->
+    generate r s teq = Ok m1 -> generate (renumber pi r) s teq' = Ok m2 ->
+    emit_module s m1 = emit_module s m2.
+Proof. exact permutation_tokens_b. Qed.
+Print Assumptions C17_permutation_tokens_checked.
+
+(** the hypotheses are satisfiable by a registry with a two-member family, a renumbering that
+    swaps the members, and settings with recursive + specific derives *)
+Theorem C17_permutation_hypotheses_satisfiable :
+  exists pi r s,
+    renumbering (N.of_nat (List.length r)) pi /\
+    skeleton_consistentb r s = true /\ docs_consistentb r s = true /\ derives_functionalb s = true /\
+    dr_recursive (s_dreg s) <> [] /\ ~ unique_item_paths r s /\
+    is_ok (generate r s (types_equal r)) = true /\
+    is_ok (generate (renumber pi r) s (types_equal (renumber pi r))) = true.
+Proof. exact family_hypotheses_satisfiable. Qed.
+Print Assumptions C17_permutation_hypotheses_satisfiable.
+
+(** without [docs_consistent] the statement is false (skeleton-consistent family whose members
+    differ in docs only; both runs [Ok]; different tokens) *)
+Theorem C17_docs_hypothesis_needed :
+  exists pi r s,
+    renumbering (N.of_nat (List.length r)) pi /\ skeleton_consistent r s /\ derives_functional s /\
+    exists m1 m2, generate r s (types_equal r) = Ok m1 /\
+                  generate (renumber pi r) s (types_equal (renumber pi r)) = Ok m2 /\
+                  emit_module s m1 <> emit_module s m2.
+Proof. exact docs_hypothesis_needed. Qed.
+Print Assumptions C17_docs_hypothesis_needed.
+
+(** ** restriction (Proofs/Restriction.v).  [restrict pi k r = firstn k (renumber pi r)]
+    (Model/Renumber.v): the retained entries are moved to the front by the renumbering [pi]
+    (the id map of retained entries) and the registry is cut after [k] entries - the shape of
+    every sub-registry produced by scale-info's [retain]. *)
+
+(** a successful path resolution / IR construction / traversal in a prefix of the registry is
+    the same successful one in the whole registry (more entries and more fuel never hurt) *)
+Theorem C17_resolve_prefix :
+  forall r1 r2 s (f1 f : nat) id isf parents orig t,
+    (f1 <= f)%nat -> resolve_rec r1 s f1 id isf parents orig = Ok t ->
+    resolve_rec (r1 ++ r2) s f id isf parents orig = Ok t.
+Proof. exact resolve_rec_prefix. Qed.
+Print Assumptions C17_resolve_prefix.
+
+Theorem C17_create_type_ir_prefix :
+  forall r1 r2 s t flat o,
+    create_type_ir r1 s t flat = Ok o -> create_type_ir (r1 ++ r2) s t flat = Ok o.
+Proof. exact create_type_ir_prefix. Qed.
+Print Assumptions C17_create_type_ir_prefix.
+
+Theorem C17_collect_prefix :
+  forall r1 r2 id v, collect_type_ids r1 id = Ok v -> collect_type_ids (r1 ++ r2) id = Ok v.
+Proof. exact collect_type_ids_prefix. Qed.
+Print Assumptions C17_collect_prefix.
+
+(** cutting a registry after a prefix keeps the item tokens of every path the prefix still
+    generates.  No consistency hypothesis: the kept item is the IR of the same entry in both
+    runs.  [no_outside_roots]: no cut-off entry has a path with a recursive derive rule (such
+    settings are invalid for the sub-registry, C11) *)
+Theorem C17_prefix_tokens :
+  forall r1 r2 s teq1 teq m1 m,
+    derives_functional s -> no_outside_roots (dr_recursive (s_dreg s)) r2 ->
+    generate r1 s teq1 = Ok m1 -> generate (r1 ++ r2) s teq = Ok m ->
+    forall p id ir1, items_get m1 p = Some (id, ir1) ->
+      exists ir, items_get m p = Some (id, ir) /\ type_ir_tokens s ir1 = type_ir_tokens s ir.
+Proof. exact prefix_tokens. Qed.
+Print Assumptions C17_prefix_tokens.
+
+(** generation stays successful under renumbering when the comparison oracle is replaced by
+    the one that judges everything equal (used as the intermediate run below) *)
+Theorem C17_generate_ok_renumber :
+  forall pi r s, renumbering (N.of_nat (List.length r)) pi ->
+    forall teq m, generate r s teq = Ok m ->
+      exists m2, generate (renumber pi r) s teq_true = Ok m2.
+Proof. exact generate_ok_renumber. Qed.
+Print Assumptions C17_generate_ok_renumber.
+
+(** C17_restriction (items): every item generated from the restricted registry has the tokens
+    of the item generated at the same path from the full registry.  Same hypotheses on [r] as
+    [C17_permutation_tokens], plus [no_outside_roots] for the dropped entries; both runs [Ok]
+    with arbitrary comparison oracles.  Not proved: the [describe] / [has_type] clauses of
+    DESIGN's C17_restriction, and that scale-info's [retain] has the form [restrict pi k]
+    (validated per use by the harness: closed, ids = positions, mu consistent). *)
+Theorem C17_restriction_tokens :
+  forall pi k r s teq teq' m m',
+    renumbering (N.of_nat (List.length r)) pi ->
+    skeleton_consistent r s -> docs_consistent r s -> derives_functional s ->
+    no_outside_roots (dr_recursive (s_dreg s)) (dropped pi k r) ->
+    generate r s teq = Ok m ->
+    generate (restrict pi k r) s teq' = Ok m' ->
+    forall p id' ir', items_get m' p = Some (id', ir') ->
+      exists id ir, items_get m p = Some (id, ir) /\ type_ir_tokens s ir' = type_ir_tokens s ir.
+Proof. exact restriction_tokens. Qed.
+Print Assumptions C17_restriction_tokens.
+
+Theorem C17_restriction_hypotheses_satisfiable :
+  exists pi k r s,
+    renumbering (N.of_nat (List.length r)) pi /\
+    skeleton_consistentb r s = true /\ docs_consistentb r s = true /\ derives_functionalb s = true /\
+    no_outside_rootsb (dr_recursive (s_dreg s)) (dropped pi k r) = true /\
+    dr_recursive (s_dreg s) <> [] /\ (List.length (restrict pi k r) < List.length r)%nat /\
+    is_ok (generate r s (types_equal r)) = true /\
+    is_ok (generate (restrict pi k r) s (types_equal (restrict pi k r))) = true.
+Proof. exact restriction_hypotheses_satisfiable. Qed.
+Print Assumptions C17_restriction_hypotheses_satisfiable.
